@@ -2,7 +2,7 @@ SPECIFICATION Spec
 CONSTANTS
   Impl = "clone"
   Inputs <- ModelInputs
-  MaxSteps = 5
-INVARIANTS DependsOnArgOnly FreshAcrossCalls ResultsAreNotInputs InputsNeverWritten
+  MaxSteps = 4
+INVARIANTS DependsOnArgOnly ErrTextOfThisArg FreshAcrossCalls ResultsAreNew
 PROPERTIES CallsWriteNothing
 CHECK_DEADLOCK FALSE
